@@ -316,6 +316,18 @@ pub mod bi {
         b.extend_from_slice(tables);
         tag(SMBIOS, &b)
     }
+    /// SMBIOS tags whose tables begin with an entry-point structure as firmware provides it: the 32-bit one (`_SM_`,
+    /// 31 bytes long by its own length byte) and the 64-bit one (`_SM3_`, 24 bytes) - contents that describe their own
+    /// length.
+    pub fn smbios_entry_points() -> Vec<Vec<u8>> {
+        let mut sm = b"_SM_".to_vec();
+        sm.extend_from_slice(&[0xC2, 0x1F, 2, 8, 0x2A, 0, 0, 0, 0, 0, 0, 0]);
+        sm.extend_from_slice(b"_DMI_");
+        sm.extend_from_slice(&[0x6E, 0x9D, 0x01, 0x00, 0xF0, 0x0E, 0x00, 0x1B, 0x00, 0x28]);
+        let mut sm3 = b"_SM3_".to_vec();
+        sm3.extend_from_slice(&[0x5A, 0x18, 3, 0, 0, 1, 0, 0x9D, 1, 0, 0, 0xF0, 0x0E, 0x0F, 0, 0, 0, 0, 0]);
+        vec![enc_smbios(2, 8, &sm), enc_smbios(3, 0, &sm3)]
+    }
     pub fn enc_rsdp1(checksum: u8, oem: &[u8; 6], revision: u8, rsdt: u32) -> Vec<u8> {
         let mut b = Vec::new();
         b.extend_from_slice(b"RSD PTR ");
